@@ -215,7 +215,9 @@ def make_callable(key, sig, is_async, view, fresh=False, deco=False, static_ctx=
 
 class RaisingView(pjrpc.server.ViewMixin):
     def __init__(self, context=None):
-        raise RuntimeError('view constructor failed: marker-init')
+        # a lookup error, of all things (an anonymous session, a missing header): it is the view that failed, not the method
+        # name that is unknown
+        raise KeyError('view constructor failed: marker-init')
 
     def vm(self, *args, **kwargs):
         return None
